@@ -30,6 +30,10 @@ pub enum Op {
     ProbeTie { i: usize, we_lose: bool },
     SetIpCheck { secs: u32 },
     Advance { ms: u64 },
+    /// a service with automatic addressing (it follows the interfaces)
+    RegisterAuto { i: usize },
+    /// one more interface shows up in the table (the periodic check finds it)
+    NewInterface,
 }
 
 #[derive(Clone, Debug, Serialize, Deserialize)]
@@ -80,6 +84,17 @@ pub fn execute(case: &Case, chatty: Option<u64>, seed: u64) -> Result<World, Str
             }
             Op::Unregister { i } => {
                 let _ = dm.unregister(&reg_name(*i));
+            }
+            Op::RegisterAuto { i } => {
+                if let Ok(info) = ServiceInfo::new("_http._tcp.local.", &format!("auto{i}"), &format!("autohost{i}.local."), "", 2100 + *i as u16, None) {
+                    let _ = dm.register(info.enable_addr_auto());
+                }
+            }
+            Op::NewInterface => {
+                let mut ifs = case.ifs.clone();
+                ifs.push(IfSpec { v4: true, v6: false });
+                dm.set_interfaces(sim_ifs(&ifs));
+                dm.api("a further interface appears".to_string());
             }
             Op::Browse { ty } => {
                 let _ = dm.browse(TYPES[*ty % TYPES.len()]);
@@ -440,6 +455,8 @@ pub fn strategy() -> BoxedStrategy<Case> {
         2 => (0usize..2, any::<bool>()).prop_map(|(i, we_lose)| Op::ProbeTie { i, we_lose }),
         1 => prop_oneof![Just(0u32), Just(1), Just(5), Just(1_000_000)].prop_map(|secs| Op::SetIpCheck { secs }),
         6 => prop_oneof![Just(0u64), Just(100), Just(300), Just(600), Just(1100), 0u64..3000, 0u64..15_000].prop_map(|ms| Op::Advance { ms }),
+        1 => (0usize..2).prop_map(|i| Op::RegisterAuto { i }),
+        1 => Just(Op::NewInterface),
     ];
     (
         iftable(2),
